@@ -16,6 +16,10 @@ pub mod tt;
 pub mod timealloc;
 pub use replay::replay;
 
+pub fn run_prop(prop: &str, tier: &str, seed: u64) -> i32 {
+    run(prop, tier, seed)
+}
+
 pub fn run(prop: &str, tier: &str, seed: u64) -> i32 {
     // leaked on purpose: helper threads with a timeout need a 'static reference
     let run: &'static Run = Box::leak(Box::new(Run::new(prop, tier, seed)));
@@ -61,6 +65,7 @@ pub fn base_plan(quick: bool) -> SweepPlan {
         see_family: None,
         corner: vec![],
         skip_reach: false,
+        absurd: false,
     }
 }
 
@@ -236,6 +241,13 @@ pub fn replay_other(run: &'static Run, kind: &str, case: &J) -> Option<i32> {
             crate::bbchk::replay(run, case);
             Some(0)
         }
+        "nd-crash" => {
+            // the whole quick tier is repeated by this (unchecked) binary: a crash ends the replay the same way
+            let prop = case.get("property").and_then(|x| x.as_str()).unwrap_or("").to_string();
+            println!("re-running {prop} quick in this build profile");
+            std::env::set_var("TVC_ND_CHILD", "/dev/null");
+            Some(run_prop(&prop, "quick", 0))
+        }
         "wallclock" => {
             // a measurement: the whole family is repeated
             crate::bbchk::c14_wallclock(run);
@@ -293,6 +305,7 @@ fn c02_c03_c15(run: &Run, prop: &str) -> i32 {
     }
     plan.heavy = Some((9, 10, 10));
     plan.corner = corner_sigs(if run.quick() { 2 } else { 30 });
+    plan.absurd = true;
     let (mut s, mut t) = sweep::run_plan(&ctx, &plan);
     // E2: nested make / null / take-back sequences
     let om = OpMon { rules: prop == "C02", key: prop == "C03", accum: prop == "C15", draws: false, nulls: true };
